@@ -8,9 +8,8 @@
 //!                                       `s` Unsigned | `f` Floating | `x` Floating(NaN) | `r<occ>` Repeated | `y<occ>` Repeated with NaN total
 //!   `ub <rate32h>`                      measures P(weight = lower) by bisection over the draw (real code) and
 //!                                       checks the expectation (oracle only)
-//!   `cg <target> <op>…`                 `CongressSample` history: `o<gid>:<word32h>` one entry with that draw word,
-//!                                       `a<gid>:<d>` one entry whose draw is floor(rate·2^24)+d-1 (d in 0..=2; boundary),
-//!                                       `n<gid>:<count>` count entries (draw word 0), `E` end of interval
+//!   `cg <target>/<v>/<ctor> <op>…`      `CongressSample` history with manual interval ends (see `CgCfg`, `CgOp`)
+//!   `rt <target>/<v>/<interval_ms> <step>…`  `CongressSample` under its REAL clock (see `RtStep`)
 //!
 //! Oracles (Rust, exact integer arithmetic, independent of the Lean model) — see `notes/C12.md`.
 //! Correspondence: every case is replayed in the Lean model (`driver sampling`) and compared bit for bit;
@@ -816,6 +815,321 @@ fn drive_cg<R: rand::RngCore>(cfg: &CgCfg, ops: &[CgOp], mut s: CongressSample<R
     run
 }
 
+// ------------------------------------------------------------------------------------------------
+// congress under its REAL clock
+//
+// `rt <target>/<v>/<interval_ms> <step>…`; step `n<pairs>:<count>` = that many entries back to back,
+// `W<k>` = sleep until just past the end of the current interval plus k-1 further whole intervals (the
+// next entry then rolls the interval over - once, however long the wait was).
+//
+// Timing is never an oracle. Every `format` call is bracketed by two reads of the same monotonic clock
+// the sampler uses, so the sampler's own `Instant::now()` lies in [t, t2]; the harness tracks the interval
+// in which `next_interval_start` must lie and decides "rolled over" / "did not" only when the bracket
+// settles it. Anything else (a boundary inside a bracket, the harness descheduled across a boundary, a
+// roll-over where the script wanted none) DISCARDS the attempt; the case is retried, discards are counted.
+
+#[derive(Clone, Debug, PartialEq)]
+enum RtStep {
+    Entries(Pairs, u32),
+    Wait(u32),
+}
+
+#[derive(Clone, Debug, PartialEq)]
+struct RtCfg {
+    target: u32,
+    validate: Option<bool>,
+    interval_ms: u32,
+}
+
+fn enc_rt(cfg: &RtCfg, steps: &[RtStep]) -> String {
+    let v = match cfg.validate { None => "d", Some(false) => "0", Some(true) => "1" };
+    let mut s = format!("rt {}/{v}/{}", cfg.target, cfg.interval_ms);
+    for st in steps {
+        s.push(' ');
+        s.push_str(&match st {
+            RtStep::Entries(p, c) => format!("n{}:{c}", enc_pairs(p)),
+            RtStep::Wait(k) => format!("W{k}"),
+        });
+    }
+    s
+}
+
+fn dec_rt(parts: &[&str]) -> Option<(RtCfg, Vec<RtStep>)> {
+    let h: Vec<&str> = parts.first()?.split('/').collect();
+    if h.len() != 3 {
+        return None;
+    }
+    let validate = match h[1] { "d" => None, "0" => Some(false), "1" => Some(true), _ => return None };
+    let cfg = RtCfg { target: h[0].parse().ok()?, validate, interval_ms: h[2].parse().ok()? };
+    if cfg.target == 0 || cfg.interval_ms == 0 || cfg.interval_ms > 2000 {
+        return None;
+    }
+    let mut steps = vec![];
+    for p in &parts[1..] {
+        let (k, body) = p.split_at(1);
+        steps.push(match k {
+            "W" => RtStep::Wait(body.parse::<u32>().ok()?.clamp(1, 20)),
+            "n" => {
+                let (g, c) = body.split_once(':')?;
+                RtStep::Entries(dec_pairs(g)?, c.parse().ok()?)
+            }
+            _ => return None,
+        });
+    }
+    Some((cfg, steps))
+}
+
+enum RtOutcome {
+    Done { request: String, answer: String, oracle: Option<String>, rollovers: u64, entries: u64, low_volume_intervals: u64 },
+    Discard(&'static str),
+}
+
+fn run_rt_once(cfg: &RtCfg, steps: &[RtStep]) -> Result<RtOutcome, String> {
+    use std::collections::BTreeMap;
+    use std::time::Instant;
+    catch(|| {
+        let rec = Recorder::default();
+        let rng = CellRng::default(); // word 0: draw 0 <= every rate, every entry reaches the recorder
+        let interval = Duration::from_millis(cfg.interval_ms as u64);
+        let interval_ns = interval.as_nanos() as u64;
+        let guard = Duration::from_millis(2);
+        let mut b = CongressSampleBuilder::default().target_entries_per_interval(cfg.target).interval(interval);
+        if let Some(v) = cfg.validate {
+            b = b.validate_groups(v);
+        }
+        let validate = cfg.validate.unwrap_or(cfg!(debug_assertions));
+        let t0 = Instant::now();
+        let ns = |t: Instant| t.duration_since(t0).as_nanos() as u64;
+        let mut s = b.build_with_rng(rec.clone(), rng.clone());
+        // `next_interval_start` was read inside `build`: it lies in [n_lo, n_hi]
+        let (mut n_lo, mut n_hi) = (0u64, ns(Instant::now()));
+        std::thread::sleep(Duration::from_micros(200));
+        let mut request = format!("rt {}/{}/{interval_ns}/{n_hi}", cfg.target, validate as u8);
+        let mut answer: Vec<String> = vec![];
+        let mut oracle: Option<String> = None;
+        let mut rates: BTreeMap<Pairs, f32> = BTreeMap::new();
+        let mut volume: BTreeMap<Pairs, u64> = BTreeMap::new();
+        let mut life: BTreeMap<Pairs, (u64, u64)> = BTreeMap::new();
+        let mut interval_total = 0u64; // entries since the last roll-over, by the harness's own bucketing
+        let mut must_be_one = true; // no interval has been above target yet
+        let mut expect_roll = true;
+        let (mut rollovers, mut entries, mut low) = (0u64, 0u64, 0u64);
+        let fail = |what: String, oracle: &mut Option<String>| {
+            if oracle.is_none() {
+                *oracle = Some(what);
+            }
+        };
+        'steps: for (si, step) in steps.iter().enumerate() {
+            match step {
+                RtStep::Wait(k) => {
+                    let until = t0 + Duration::from_nanos(n_hi + (*k as u64 - 1) * interval_ns) + guard;
+                    loop {
+                        let now = Instant::now();
+                        if now >= until {
+                            break;
+                        }
+                        std::thread::sleep(until - now);
+                    }
+                    expect_roll = true;
+                }
+                RtStep::Entries(pairs, count) => {
+                    let key = true_key(pairs);
+                    let e = group_entry(pairs);
+                    for _ in 0..*count {
+                        let pre: Option<Vec<Pairs>> = if expect_roll {
+                            Some(s.verif_group_rates().iter().map(|g| key_of(&g.0).expect("ids")).collect())
+                        } else {
+                            None
+                        };
+                        rec.sampled_calls.borrow_mut().clear();
+                        let t = ns(Instant::now());
+                        s.format(&e, &mut std::io::sink()).expect("format");
+                        let t2 = ns(Instant::now());
+                        let rolled = if t > n_hi {
+                            true
+                        } else if t2 + guard.as_nanos() as u64 <= n_lo {
+                            false
+                        } else {
+                            return RtOutcome::Discard("an entry landed within the guard band of an interval boundary");
+                        };
+                        if rolled != expect_roll {
+                            return RtOutcome::Discard("harness descheduled across an interval boundary");
+                        }
+                        entries += 1;
+                        let mut tok = String::new();
+                        let since = if rolled { 1 } else { interval_total + 1 };
+                        if s.verif_current_observed() as u64 != since {
+                            fail(format!("step {si}: this is entry {since} since the interval boundary (interval {} ms, by the harness's reading of the same clock), the sampler counts {}: it did not roll the interval over when the clock passed the boundary", cfg.interval_ms, s.verif_current_observed()), &mut oracle);
+                        }
+                        if rolled {
+                            rollovers += 1;
+                            if interval_total > 0 && interval_total < 16 {
+                                low += 1;
+                            }
+                            (n_lo, n_hi) = (t + interval_ns, t2 + interval_ns);
+                            let pre = pre.unwrap_or_default();
+                            // the groups as `update_rates` left them: those that existed before this call
+                            let mut rows: Vec<(Pairs, f32, f32)> = vec![];
+                            for (g, rate, avg, _) in s.verif_group_rates() {
+                                let k = key_of(&g).expect("ids");
+                                if pre.contains(&k) && !rows.iter().any(|r| r.0 == k) {
+                                    rows.push((k, rate, avg));
+                                }
+                            }
+                            life.retain(|k, _| rows.iter().any(|r| r.0 == *k));
+                            for (k, v) in &volume {
+                                let e = life.entry(k.clone()).or_insert((*v, *v));
+                                e.0 = e.0.min(*v);
+                                e.1 = e.1.max(*v);
+                            }
+                            if rollovers > 1 {
+                                for w in judge_rates(cfg.target, interval_total, &rows, &life) {
+                                    fail(format!("step {si}: interval ended by the clock: {w}"), &mut oracle);
+                                }
+                            }
+                            must_be_one = interval_total <= cfg.target as u64;
+                            rates = rows.iter().map(|r| (r.0.clone(), r.1)).collect();
+                            rows.sort_by(|a, b| a.0.cmp(&b.0));
+                            tok = format!("R{}|", rows.iter().map(|r| format!("{}:{}:{}", enc_pairs(&r.0), f32_bits(r.1), f32_bits(r.2))).collect::<Vec<_>>().join(";"));
+                            request.push_str(&format!(" o{}@{t}~{}:00000000", enc_pairs(pairs), pre.iter().map(enc_pairs).collect::<Vec<_>>().join(",")));
+                            interval_total = 0;
+                            volume.clear();
+                            expect_roll = false;
+                        } else {
+                            request.push_str(&format!(" o{}@{t}:00000000", enc_pairs(pairs)));
+                        }
+                        interval_total += 1;
+                        *volume.entry(key.clone()).or_insert(0) += 1;
+                        let calls = rec.sampled_calls.borrow().clone();
+                        let want = if must_be_one { 1.0 } else { rates.get(&key).copied().unwrap_or(1.0) };
+                        match calls.as_slice() {
+                            [r] => {
+                                if !(*r > 0.0 && *r <= 1.0) {
+                                    fail(format!("step {si}: rate {r:e} handed to an entry is outside (0,1]"), &mut oracle);
+                                }
+                                if must_be_one && *r != 1.0 {
+                                    fail(format!("step {si}: the previous interval saw no more than the target {} but an entry of group {} was handed rate {r:e}", cfg.target, enc_pairs(&key)), &mut oracle);
+                                } else if r.to_bits() != want.to_bits() {
+                                    fail(format!("step {si}: entry of group {} was handed rate {r:e}, the group's rate for this interval is {want:e}", enc_pairs(&key)), &mut oracle);
+                                }
+                                tok.push_str(&format!("e{}", f32_bits(*r)));
+                            }
+                            other => {
+                                fail(format!("step {si}: an entry with draw 0 reached the inner format {} times", other.len()), &mut oracle);
+                                tok.push_str("d?");
+                            }
+                        }
+                        answer.push(tok);
+                        if oracle.is_some() {
+                            break 'steps;
+                        }
+                    }
+                }
+            }
+        }
+        RtOutcome::Done { request, answer: answer.join(" "), oracle, rollovers, entries, low_volume_intervals: low }
+    })
+}
+
+/// the four congress invariants on the rates of one ended interval (rows = (true group, rate, average))
+fn judge_rates(target: u32, interval_total: u64, rows: &[(Pairs, f32, f32)], life: &std::collections::BTreeMap<Pairs, (u64, u64)>) -> Vec<String> {
+    let mut out = vec![];
+    for (k, rate, avg) in rows {
+        if !(*rate > 0.0 && *rate <= 1.0) {
+            out.push(format!("rate of {} is {rate:e}, outside (0,1]", enc_pairs(k)));
+        }
+        if let Some((lo, hi)) = life.get(k) {
+            let a = *avg as f64;
+            if a < *lo as f64 * (1.0 - 1e-4) || a > *hi as f64 * (1.0 + 1e-4) {
+                out.push(format!("average volume {a} of group {} is outside the range [{lo}, {hi}] of its true interval volumes", enc_pairs(k)));
+            }
+        }
+    }
+    if interval_total <= target as u64 {
+        if let Some((k, rate, _)) = rows.iter().find(|r| r.1 != 1.0) {
+            out.push(format!("the interval saw {interval_total} <= target {target} but {} has rate {rate:e}", enc_pairs(k)));
+        }
+    } else {
+        let budget: f64 = rows.iter().map(|r| r.2 as f64 * r.1 as f64).sum();
+        if budget > target as f64 * (1.0 + 1e-4) {
+            out.push(format!("sum(avg*rate) = {budget} exceeds target {target}"));
+        }
+        for a in rows {
+            for b in rows {
+                if a.2 <= b.2 && (a.1 as f64) < b.1 as f64 * (1.0 - 1e-4) {
+                    out.push(format!("{} (avg {}) is rarer than {} (avg {}) but has the lower rate {:e} < {:e}", enc_pairs(&a.0), a.2, enc_pairs(&b.0), b.2, a.1, b.1));
+                }
+            }
+        }
+    }
+    out
+}
+
+struct RtResult {
+    done: Option<(String, String, Option<String>, u64, u64, u64)>,
+    discards: Vec<&'static str>,
+}
+
+/// retries until an attempt is free of timing ambiguity (at most `attempts` times)
+fn run_rt(cfg: &RtCfg, steps: &[RtStep], attempts: usize) -> Result<RtResult, String> {
+    let mut discards = vec![];
+    for _ in 0..attempts {
+        match run_rt_once(cfg, steps)? {
+            RtOutcome::Done { request, answer, oracle, rollovers, entries, low_volume_intervals } => {
+                return Ok(RtResult { done: Some((request, answer, oracle, rollovers, entries, low_volume_intervals)), discards });
+            }
+            RtOutcome::Discard(why) => discards.push(why),
+        }
+    }
+    Ok(RtResult { done: None, discards })
+}
+
+fn gen_rt(rng: &mut Rng, i: usize) -> (RtCfg, Vec<RtStep>) {
+    let target = rng.range(5, 20) as u32;
+    let cfg = RtCfg {
+        target,
+        validate: *rng.pick(&[None, Some(false), Some(true)]),
+        interval_ms: rng.range(20, 50) as u32,
+    };
+    let ngroups = rng.range(1, 3) as usize;
+    let groups: Vec<Pairs> = (0..ngroups).map(|g| if g == 0 { vec![(1, 1)] } else { vec![(1, g as u32 + 1), (2, 1)] }).collect();
+    let intervals = rng.range(5, 9);
+    let mut steps = vec![];
+    let mut wait = 0u32;
+    for j in 0..intervals {
+        let vol = match i % 4 {
+            0 => (target as u64 * 4 / 5).max(1),                       // steady, just below target, below 16
+            1 => if j == 0 { rng.range(30, 40) } else { 1 },           // burst, then a trickle
+            _ => match rng.below(10) {
+                0 => 0,
+                1..=6 => rng.range(1, 15),
+                _ => rng.range(16, 40),
+            },
+        } as u32;
+        if vol == 0 && j > 0 {
+            wait += 1; // an interval without entries: the next roll-over covers it too
+            continue;
+        }
+        if j > 0 {
+            steps.push(RtStep::Wait(wait + 1));
+            wait = 0;
+        }
+        let mut rest = vol.max(1);
+        for (gi, g) in groups.iter().enumerate() {
+            let c = if gi + 1 == groups.len() { rest } else { rng.below(rest as u64 + 1) as u32 };
+            rest -= c;
+            if c > 0 {
+                let mut p = g.clone();
+                if rng.chance(1, 2) {
+                    p.reverse();
+                }
+                steps.push(RtStep::Entries(p, c));
+            }
+        }
+    }
+    (cfg, steps)
+}
+
 /// strip the `noObs` field of the model's `R` tokens (not observable through the hooks)
 fn canon_model_cg(reply: &str) -> String {
     reply
@@ -831,6 +1145,18 @@ fn canon_model_cg(reply: &str) -> String {
             } else {
                 t.to_string()
             }
+        })
+        .collect::<Vec<_>>()
+        .join(" ")
+}
+
+/// the same for the `R<rows>|<decision>` tokens of the real-clock stage
+fn canon_model_rt(reply: &str) -> String {
+    reply
+        .split(' ')
+        .map(|t| match t.split_once('|') {
+            Some((r, d)) if r.starts_with('R') => format!("{}|{d}", canon_model_cg(r)),
+            _ => t.to_string(),
         })
         .collect::<Vec<_>>()
         .join(" ")
@@ -1044,6 +1370,7 @@ enum Case {
     Rc(u32, u64, Vec<Vec<ObsK>>),
     Ub(u32),
     Cg(CgCfg, Vec<CgOp>),
+    Rt(RtCfg, Vec<RtStep>),
 }
 
 impl Case {
@@ -1054,6 +1381,7 @@ impl Case {
             Case::Rc(r, w, ms) => format!("rc {r:08x} {w:016x} {}", if ms.is_empty() { "-".to_string() } else { enc_metrics(ms, false) }),
             Case::Ub(r) => format!("ub {r:08x}"),
             Case::Cg(t, ops) => enc_cg(t, ops),
+            Case::Rt(c, st) => enc_rt(c, st),
         }
     }
     fn decode(s: &str) -> Option<Case> {
@@ -1065,6 +1393,7 @@ impl Case {
             "rc" if p.len() == 4 => Some(Case::Rc(h32(p[1])?, u64::from_str_radix(p[2], 16).ok()?, if p[3] == "-" { vec![] } else { dec_metrics(p[3])? })),
             "ub" if p.len() == 2 => Some(Case::Ub(h32(p[1])?)),
             "cg" => dec_cg(&p[1..]).map(|(t, o)| Case::Cg(t, o)),
+            "rt" => dec_rt(&p[1..]).map(|(c, st)| Case::Rt(c, st)),
             _ => None,
         }
     }
@@ -1189,6 +1518,42 @@ fn run_case(c: &Case, rep: &mut Report, rng: &mut Rng, search_only: bool) -> Opt
             }
             None
         }
+        Case::Rt(cfg, steps) => match run_rt(cfg, steps, 6) {
+            Err(p) => {
+                rep.oracle_failure("sampling:congress-clock", &enc, &format!("panic:{p}"), "CongressSample panicked");
+                None
+            }
+            Ok(res) => {
+                for d in &res.discards {
+                    rep.bump(&format!("rt:discarded attempt ({d})"));
+                }
+                match res.done {
+                    None => {
+                        rep.bump("rt:gave up (6 attempts discarded for timing ambiguity; nothing judged)");
+                        None
+                    }
+                    Some((request, answer, oracle, rollovers, entries, low)) => {
+                        if !search_only {
+                            rep.case(&enc, low > 0);
+                            rep.bump("rt:samplers run under the real clock");
+                            rep.bump_by("rt:roll-overs by the clock", rollovers);
+                            rep.bump_by("rt:entries", entries);
+                            rep.bump_by("rt:intervals with 1..15 entries", low);
+                        }
+                        if let Some(what) = oracle {
+                            let failing = |st: &[RtStep]| matches!(run_rt(cfg, st, 3), Ok(RtResult { done: Some((_, _, Some(_), _, _, _)), .. }));
+                            let small = shrink_list(steps, |st| failing(st));
+                            let (what2, ans) = match run_rt(cfg, &small, 6) {
+                                Ok(RtResult { done: Some((_, a, Some(w), _, _, _)), .. }) => (w, a),
+                                _ => (what.clone(), answer.clone()),
+                            };
+                            rep.oracle_failure("sampling:congress-clock", &enc_rt(cfg, &small), &ans, &what2);
+                        }
+                        Some(Pending { component: "sampling/congress-clock", case: enc, request, answer })
+                    }
+                }
+            }
+        },
         Case::Cg(target, ops) => match run_cg(target, ops) {
             Err(p) => {
                 rep.oracle_failure("sampling:congress", &enc, &format!("panic:{p}"), "CongressSample panicked");
@@ -1238,6 +1603,17 @@ fn neighbours(case: &str, rng: &mut Rng, n: usize) -> Vec<Case> {
                 Case::Rc(rr, if i % 2 == 0 { *w } else { gen_word64(rng, f32b(rr)) }, ms.clone())
             }
             Case::Ub(r) => Case::Ub(jitter(*r, rng)),
+            Case::Rt(c, st) => {
+                let mut o = st.clone();
+                for step in o.iter_mut() {
+                    if let RtStep::Entries(g, n) = step {
+                        if rng.chance(1, 3) {
+                            *step = RtStep::Entries(g.clone(), rng.range(1, (*n as u64 * 2).max(2)) as u32);
+                        }
+                    }
+                }
+                Case::Rt(c.clone(), o)
+            }
             Case::Cg(t, ops) => {
                 // perturb volumes / drop ops
                 let mut o = ops.clone();
@@ -1263,7 +1639,7 @@ fn main() {
         "sampling",
         "case = one of na(rate) / fx(rate, draw) / rc(rate, draw, observation kinds) / ub(rate) / cg(target, history); non-trivial = \
          na: alpha != 1 (1/rate is not an integer); fx: rate < 1; rc: weight > 1 or some Counts entry; ub: always; \
-         cg: at least one interval above target (rates actually computed); distinct by case text",
+         cg: at least one interval above target (rates actually computed); rt: at least one clock-ended interval with 1..15 entries; distinct by case text",
     );
     let mut rng = Rng::new(args.seed);
     let mut cases: Vec<Case> = vec![];
@@ -1327,6 +1703,12 @@ fn main() {
         for _ in 0..n_ub {
             cases.push(Case::Ub(gen_rate(&mut rng)));
         }
+        // --- rt (real clock) -------------------------------------------------------------------
+        let n_rt = if thorough { 360 } else { 18 };
+        for i in 0..n_rt {
+            let (c, st) = gen_rt(&mut rng, i);
+            cases.push(Case::Rt(c, st));
+        }
         // --- cg ------------------------------------------------------------------------------
         let n_cg = if thorough { 30_000 } else { 1_500 };
         for i in 0..n_cg {
@@ -1363,7 +1745,7 @@ fn main() {
                         match run_driver(&driver, "sampling", &reqs) {
                             Some(replies) => {
                                 for (p, reply) in pend.iter().zip(replies.iter()) {
-                                    let reply = if p.component == "sampling/congress" { canon_model_cg(reply) } else { reply.clone() };
+                                    let reply = if p.component == "sampling/congress" { canon_model_cg(reply) } else if p.component == "sampling/congress-clock" { canon_model_rt(reply) } else { reply.clone() };
                                     if p.answer != reply {
                                         rep.disagreement(p.component, &format!("{} ## model-request: {}", p.case, p.request), &p.answer, &reply);
                                     }
@@ -1464,7 +1846,7 @@ fn main() {
         let mut srep = Report::new(&args, "sampling", "");
         let mut srng = rng.fork(0x5ea7c4);
         // (a congress history costs ~10^4 times more than a rate: far fewer neighbours)
-        let per = if seeds.iter().any(|s| s.starts_with("cg")) { 300 } else { 400_000 } / seeds.len().max(1);
+        let per = if seeds.iter().any(|s| s.starts_with("cg") || s.starts_with("rt")) { 300 } else { 400_000 } / seeds.len().max(1);
         for s in &seeds {
             for c in neighbours(s, &mut srng, per) {
                 run_case(&c, &mut srep, &mut srng, true);
